@@ -21,6 +21,10 @@ type Lim struct {
 	ABytes int
 	IDLen  int
 	Refs   int
+	// RefsVia: which configuration field carries Refs. 0 both MaxMarkerCount and MaxLocalReferenceCount,
+	// 1 only MaxMarkerCount, 2 only MaxLocalReferenceCount (the other keeps its default of 10000).
+	// Rules.tla's lim.refs is the smaller of the two: the validator bounds the number of markers by both.
+	RefsVia int
 }
 
 var defaultLim = Lim{Depth: 1000, Objs: 1000000, ABytes: 1 << 30, IDLen: 1000, Refs: 10000}
@@ -36,8 +40,12 @@ func (l Lim) Config() *configuration.Configuration {
 	cfg.Rules.MaxObjectCount = uint64(l.Objs)
 	cfg.Rules.MaxArraySizeBytes = uint64(l.ABytes)
 	cfg.Rules.MaxIdentifierLength = uint64(l.IDLen)
-	cfg.Rules.MaxLocalReferenceCount = uint64(l.Refs)
-	cfg.Rules.MaxMarkerCount = uint64(l.Refs)
+	if l.RefsVia != 1 {
+		cfg.Rules.MaxLocalReferenceCount = uint64(l.Refs)
+	}
+	if l.RefsVia != 2 {
+		cfg.Rules.MaxMarkerCount = uint64(l.Refs)
+	}
 	return cfg
 }
 
